@@ -349,4 +349,40 @@ theorem change_disabled {env : Env} {w : W} {t : Nat} {o n : Option Row} (h : en
   have : enabled env t = false := by simp [enabled, h]
   simp [change, this]
 
+/-! ### DoWithoutTriggers(tables, block): disable each listed table, run the block, enable each -/
+
+theorem fold_dis (t : Nat) : ∀ (ts : List Nat) (c : Nat),
+    (ts.map Op.dis).foldl (swCount t) c = c + ts.count t := by
+  intro ts
+  induction ts with
+  | nil => intro c; simp
+  | cons x xs ih =>
+    intro c
+    simp only [List.map_cons, List.foldl_cons, swCount, List.count_cons]
+    rw [ih]
+    by_cases h : x = t <;> simp [h] <;> omega
+
+theorem fold_ena (t : Nat) : ∀ (ts : List Nat) (c : Nat),
+    (ts.map Op.ena).foldl (swCount t) c = c - ts.count t := by
+  intro ts
+  induction ts with
+  | nil => intro c; simp
+  | cons x xs ih =>
+    intro c
+    simp only [List.map_cons, List.foldl_cons, swCount, List.count_cons]
+    rw [ih]
+    by_cases h : x = t <;> simp [h] <;> omega
+
+theorem without_restores (s : St) (ts : List Nat) (body : List Op) (t : Nat)
+    (hbody : ∀ c, body.foldl (swCount t) c = c) :
+    (run s (ts.map Op.dis ++ body ++ ts.map Op.ena)).env.dis t = s.env.dis t := by
+  rw [run_dis, List.foldl_append, List.foldl_append, fold_dis, hbody, fold_ena]
+  omega
+
+theorem without_inside (s : St) (ts : List Nat) (t : Nat) (ht : t ∈ ts) :
+    (run s (ts.map Op.dis)).env.dis t ≠ 0 := by
+  rw [run_dis, fold_dis]
+  have := List.count_pos_iff.mpr ht
+  omega
+
 end Gsu.LDb
